@@ -293,7 +293,7 @@ pub fn run_selection(tier: Tier, seed: u64, acc_out: &mut Acc) {
   acc_out.count_n("exhaustive_block_size", total as u64);
   // random block over the full universe (8 versions, selected versions may be
   // outside the registry: lockfile-seeded)
-  let n_rand = tier.pick(300_000usize, 6_000_000);
+  let n_rand = tier.pick(1200000usize, 24000000);
   let acc = par_run(n_rand / 1000, |ci, acc| {
     let mut rng = Rng::new(seed).fork(ci as u64 ^ 0xC06);
     for j in 0..1000 {
